@@ -77,9 +77,6 @@ func (r *Report) Violate(idx int, sig, msg string, c any) {
 	defer r.mu.Unlock()
 	r.vioCount[sig]++
 	r.vioTotal++
-	if r.vioTotal >= 25 {
-		r.abort.Store(true)
-	}
 	if r.vioCount[sig] <= 5 {
 		r.violations = append(r.violations, Violation{Sig: sig, Msg: msg, Case: c, Idx: idx})
 	}
